@@ -368,12 +368,24 @@ func RunC20(cfg simrt.Config, o world.Opts) *world.Result {
 			twin = before.AddTwin(twinOf, dir)
 			res.Count("c20.twin-files", 1)
 		}
+		// a pair with exactly 256 or 512 diagnostics and nothing else: a count that a process exit
+		// status cannot carry (the status a parent sees is the low eight bits)
+		wide := ""
+		if twin < 0 && simrt.Flip("c20.wide", 0.01) {
+			wide = before.AddWideStruct(256 * (1 + ch("c20.wide-n", 2)))
+			res.Count("c20.pairs-with-a-multiple-of-256-diagnostics", 1)
+		}
 		after := before.Clone()
 		if twin >= 0 {
 			after.Files[twin].Deleted = true // out of the edits' reach; re-made from its original below
 		}
 		var script []*progen.Edit
 		n := ch("edits.n", 6) // number of edits wanted (0 = identical versions)
+		if wide != "" {
+			n = 0
+			k := after.RequireAll(wide)
+			script = append(script, &progen.Edit{Kind: "optional-to-required", Breaking: true, What: fmt.Sprintf("all %d fields of %s", k, wide)})
+		}
 		hasAdd, hasDel := false, false
 		for i := 0; i < 3*n && len(script) < n; i++ {
 			snap := after.Clone()
